@@ -162,7 +162,7 @@ impl Scenario for Relay {
     fn budget(&self, tier: Tier) -> u64 {
         match tier {
             Tier::Quick => 6_000,
-            Tier::Thorough => 600_000,
+            Tier::Thorough => 120_000,
         }
     }
 
